@@ -22,6 +22,7 @@ BookOf(pairs) ==
       LET i == CHOOSE j \in 1..Len(pairs) : pairs[j][1] = r IN pairs[i][2]]
 
 Load(rec) ==
+  /\ decl' = <<>>
   /\ book0' = BookOf(rec.book)
   /\ db' = BookOf(rec.book)
   /\ maxDepth' = rec.n
@@ -33,6 +34,7 @@ Load(rec) ==
 TInit ==
   /\ l = 2
   /\ Trace[1].ev = "Init"
+  /\ decl = <<>>
   /\ book0 = BookOf(Trace[1].book)
   /\ db = book0
   /\ maxDepth = Trace[1].n
